@@ -132,7 +132,19 @@ type vSrvCfg struct {
 	AuthOff bool `json:"auth_off"`
 	CORS    bool `json:"cors"`
 	Metrics bool `json:"metrics"`
+	// Order is the start-up order of the construction steps, comma separated:
+	// "register" (the node's registerEndpoints), "metrics" (Server.WithMetrics),
+	// "register-half" / "register-rest" (Server.RegisterService for the first half / the rest of
+	// the modules, same namespaces and API structs as registerEndpoints uses).
+	// Empty = "metrics,register" when Metrics is set, else "register".
+	Order string `json:"order,omitempty"`
 }
+
+// vNSByAPI remembers which namespace registerEndpoints gives each API struct ("*das.API" -> "das").
+var (
+	vNSMu    sync.Mutex
+	vNSByAPI = map[string]string{}
+)
 
 func (c vSrvCfg) String() string {
 	a := "auth=on"
@@ -144,6 +156,9 @@ func (c vSrvCfg) String() string {
 	}
 	if c.Metrics {
 		a += ",metrics"
+	}
+	if c.Order != "" {
+		a += ",order=" + strings.ReplaceAll(c.Order, ",", ">")
 	}
 	return a
 }
@@ -205,17 +220,18 @@ func newVServerKeys(cfg vSrvCfg, signer jwt.Signer, verifier jwt.Verifier) (s *v
 		return nil, err
 	}
 	srv := server(&c, signer, verifier)
-	if cfg.Metrics {
-		if err := srv.WithMetrics(); err != nil {
-			return nil, err
-		}
-	}
 	s = &vServer{cfg: cfg, srv: srv, rec: &vRecorder{}, byName: map[string]*vMethod{}}
 
 	// the node's own registration path, called by reflection
 	fn := reflect.ValueOf(registerEndpoints)
 	args := make([]reflect.Value, fn.Type().NumIn())
 	apis := map[string]reflect.Type{} // "*state.API" -> Internal struct type
+	type vMod struct {
+		api  string
+		stub any
+		mk   func() any
+	}
+	var mods []vMod
 	for i := range args {
 		pt := fn.Type().In(i)
 		if pt == reflect.TypeOf(srv) {
@@ -234,8 +250,58 @@ func newVServerKeys(cfg vSrvCfg, signer jwt.Signer, verifier jwt.Verifier) (s *v
 		args[i] = reflect.ValueOf(stub)
 		in, _ := reflect.TypeOf(stub).Elem().FieldByName("Internal")
 		apis[reflect.TypeOf(stub).String()] = in.Type
+		mods = append(mods, vMod{reflect.TypeOf(stub).String(), stub, mk})
 	}
-	fn.Call(args)
+	order := cfg.Order
+	if order == "" {
+		order = "register"
+		if cfg.Metrics {
+			order = "metrics,register"
+		}
+	}
+	sort.Slice(mods, func(i, j int) bool { return mods[i].api < mods[j].api })
+	if strings.Contains(order, "register-") {
+		vNSMu.Lock()
+		known := len(vNSByAPI) > 0
+		vNSMu.Unlock()
+		if !known { // learn the namespaces from a plain server first
+			if p, err := newVServerKeys(vSrvCfg{}, signer, verifier); err == nil {
+				p.Close()
+			}
+		}
+	}
+	direct := func(ms []vMod) error {
+		vNSMu.Lock()
+		defer vNSMu.Unlock()
+		for _, m := range ms {
+			ns, ok := vNSByAPI[m.api]
+			if !ok {
+				return fmt.Errorf("namespace of %s not known yet", m.api)
+			}
+			srv.RegisterService(ns, m.stub, m.mk())
+		}
+		return nil
+	}
+	for _, step := range strings.Split(order, ",") {
+		switch step {
+		case "register":
+			fn.Call(args) // the node's own registration path
+		case "metrics":
+			if err := srv.WithMetrics(); err != nil {
+				return nil, err
+			}
+		case "register-half":
+			if err := direct(mods[:len(mods)/2]); err != nil {
+				return nil, err
+			}
+		case "register-rest":
+			if err := direct(mods[len(mods)/2:]); err != nil {
+				return nil, err
+			}
+		default:
+			return nil, fmt.Errorf("unknown construction step %q", step)
+		}
+	}
 
 	// the universe of methods is the server's own dispatch table
 	names, err := vDispatchNames(srv)
@@ -306,6 +372,11 @@ func newVServerKeys(cfg vSrvCfg, signer jwt.Signer, verifier jwt.Verifier) (s *v
 	for i := range s.methods {
 		s.byName[s.methods[i].Name] = &s.methods[i]
 	}
+	vNSMu.Lock()
+	for _, m := range s.methods {
+		vNSByAPI[m.API] = m.NS
+	}
+	vNSMu.Unlock()
 	if err := srv.Start(context.Background()); err != nil {
 		return nil, err
 	}
@@ -1081,7 +1152,7 @@ func TestVerifC19(t *testing.T) {
 		"every truncation of an admin token and single-bit flips of it (quick: one bit per signature byte and one per 4 header/payload bytes; thorough: every bit)) x transport {http header, http ?token=, http batch, websocket} x server configuration " +
 		"{auth on, auth on + CORS, auth off (+ metrics in thorough)}. A cell is distinct by (configuration, transport, credential, method) and non-trivial when the " +
 		"server gave a decisive answer (stub reached / 'missing permission' / 401); channel methods over plain http are counted as trivial. " +
-		"History part: see coverage.history_part. Node-keys part: see coverage.node_keys_part"
+		"History part: see coverage.history_part. Node-keys part: see coverage.node_keys_part. Construction-order part: see coverage.construction_order_part"
 	rep.Assumptions = []string{
 		"module implementations are reflective stubs behind the real API structs; the permission proxy, auth handler, token verification, dispatch and transports are the real code",
 		"the perm tag of a method is read from the API struct the node registers; namespaces are attributed to API structs by their exact method sets",
@@ -1252,6 +1323,15 @@ func TestVerifC19(t *testing.T) {
 	}
 	wg.Wait()
 
+	// ---- construction-order part: every start-up order of registration and WithMetrics
+	ost := vRunOrders(creds, deadline, func(v *vVerdict, replay vCase) { rep.Violation(v.sig, v.what, replay) })
+	for _, m := range ost.Infra {
+		infra(m)
+	}
+	if !ost.Complete {
+		exhaustive = false
+	}
+
 	// ---- history part: does the server remember anything about a credential between requests?
 	histLen := 4
 	if rep.Tier == "thorough" {
@@ -1354,6 +1434,13 @@ func TestVerifC19(t *testing.T) {
 	rep.Count(evals, int64(len(nontrivial)), contexts, evals)
 	rep.Count(hst.Cells, hst.Decisive, int64(hst.Run), hst.Cells)
 	rep.Count(kst.Cells, kst.Decisive, kst.Contexts, kst.Cells)
+	rep.Count(ost.Cells, ost.Decisive, ost.Contexts, ost.Cells)
+	rep.Set("construction_order_part", map[string]any{
+		"what": "for auth on and auth off, every listed start-up order of the node's registerEndpoints / Server.RegisterService and Server.WithMetrics (global OTel meter provider, as " +
+			"nodebuilder's settings use) builds its own server; each is driven with the reduced credential set x every method of the dispatch table x 4 transports; oracle unchanged",
+		"orders": vOrders, "credentials": ost.CredNames, "servers": ost.Servers, "cells": ost.Cells, "cells_decisive": ost.Decisive,
+		"outcomes_per_server": ost.PerServer, "cells_reached": ost.Reached, "cells_kept_out": ost.KeptOut, "complete": ost.Complete, "wall_s": ost.Wall,
+	})
 	rep.Set("node_keys_part", map[string]any{
 		"what": "signer, verifier and node module come out of the node's own fx wiring (node.ConstructModule -> jwtSignerAndVerifier(keystore)); the rpc.Server built by the " +
 			"node's constructor around that pair is driven with tokens signed with the secret read back from the keystore, tokens minted by node.AuthNew / AuthNewWithExpiry, " +
@@ -1565,6 +1652,9 @@ func vReplay(t *testing.T, rep *vx.Report, path string) {
 			t.Fatalf("replay: %v", err)
 		}
 		v, inf := vJudge(cs.Cfg, cs.Transport, cs.Cred, m, obs[0])
+		if v != nil && cs.Cfg.Order != "" {
+			v.sig += "/order=" + cs.Cfg.Order
+		}
 		if i == 0 {
 			fmt.Printf("REPLAY-STEP %s %s cred=%q -> hit=%v response=%s %s\n", cs.Cfg, cs.Transport, cs.Cred.Name, obs[0].Hit, obs[0].Resp.Class, obs[0].Resp.Detail)
 			first = v
